@@ -197,6 +197,9 @@ func saveFailure[C any](p Prop[C], c C, r Result) string {
 // saved regress cases, then the rapid search.
 func Check[C any](t *testing.T, p Prop[C]) {
 	t.Helper()
+	if o := os.Getenv("VERIF_ID_OVERRIDE"); o != "" {
+		p.ID = o // the same executable property serves as evidence for another listed property (e.g. C13)
+	}
 	if rp := os.Getenv("VERIF_REPLAY"); rp != "" {
 		replayFile(t, p, rp, true)
 		return
